@@ -68,6 +68,27 @@ def seq_over(**kw):
     return d
 
 
+def apalache_counter(chk):
+    """unbounded, spec level: the 64-bit counter never reuses a number (inductive invariant, Apalache).  Kept out of
+    the verdict path's critical assumptions: a failure here is a broken specification (exit 2)."""
+    import subprocess
+    from .common import SPEC
+    for args, what in ((["--init=Init", "--inv=IndInv", "--length=0"], "Init => IndInv"),
+                       (["--init=IndInit", "--inv=IndInv", "--length=1"], "IndInv /\\ Next => IndInv'")):
+        try:
+            p = subprocess.run(["apalache-mc", "check"] + args + ["--out-dir=" + os.path.join(engine.outdir(chk.prop), "apalache"),
+                                "Counter.tla"], cwd=SPEC, stdout=subprocess.PIPE, stderr=subprocess.STDOUT, text=True, timeout=600)
+        except (OSError, subprocess.TimeoutExpired) as e:
+            chk.notes.setdefault("apalache", []).append({"obligation": what, "result": "not run: %s" % e})
+            continue
+        ok = "EXITCODE: OK" in p.stdout
+        chk.notes.setdefault("apalache", []).append({"obligation": what, "result": "proved" if ok else "FAILED"})
+        if not ok:
+            raise ToolError("Apalache: %s fails on Counter.tla\n%s" % (what, p.stdout[-1500:]))
+    import shutil
+    shutil.rmtree(os.path.join(engine.outdir(chk.prop), "apalache"), ignore_errors=True)
+
+
 # ------------------------------------------------------------------------------------------- C04
 @prop("C04")
 def c04(chk, tier):
@@ -83,6 +104,7 @@ def c04(chk, tier):
                 seq_over(MaxSeals=4 if thorough else 3, AeadC=1),
                 invariants=["NonceIsXor", "NoncesDistinct", "ConsecutiveSeqs", "CtLen"],
                 properties=["Latch", "Monotone"])
+    apalache_counter(chk)
     ses = Session(chk)
     try:
         # 2. every transition of the bounded model, one implementation test each (teleport by hook)
@@ -705,15 +727,21 @@ def c03(chk, tier):
     chk.assumptions += [
         "exact mode: every returned byte is compared with the oracle's evaluation of the specification's term "
         "(X25519 private keys up to RFC 7748 clamping); arguments (keys, encapsulated keys) are computed by the oracle",
-        "the rejection branch of the NIST DeriveKeyPair loop (counter >= 1) has probability <= 2^-32 per key and is not "
-        "reached by any generated input: a change confined to that branch is not detectable by conformance"]
+        "the rejection branch of the NIST DeriveKeyPair loop (counter >= 1) is exercised on P-256 only, through inputs "
+        "found by exhaustive search (MC_Kem.tla RejectionWitnesses; the oracle confirms on every run that they take it); "
+        "on P-384 / P-521 the branch has probability < 2^-190 per key and no input is known"]
     ses = Session(chk)
     try:
         key = lambda l: ("c03", l["op"], l["plain"]["kem"], l["kind"], l["err"], _digest(l["bytes"]))
+        from oracle import terms as _terms
+        _terms.STATS["firstvalid_retries"] = 0
         for kem in KEMS:
             stateless_calls(chk, ses, "MC_Kem", "MC_Kem.cfg", "gen_kem_%d" % kem,
                             dict(KemSet="{%d}" % kem, NIkm=str(2000 if thorough else 40), SmallOrder="FALSE", Emit="TRUE"),
                             ALL, key)
+        chk.notes["derive_keypair_inputs_that_took_the_rejection_branch"] = _terms.STATS["firstvalid_retries"]
+        if _terms.STATS["firstvalid_retries"] < 1:
+            raise ToolError("no DeriveKeyPair input exercised the rejection branch (stale witnesses in MC_Kem.tla)")
     finally:
         ses.close()
     chk.cov["rule"] = ("derive_keypair over ikm length classes {0,1,Nsk-1,Nsk,Nsk+1,64,65,1000} and seeded Nsk-byte values, "
